@@ -78,8 +78,8 @@ def check_table(ctx):
                         env.update({boxp: Stub(bitstring=tuple(bits)), "isinstance": isi})
                         try:
                             term = eval_branch(st.body, env)
-                        except ArityError as e:
-                            bad = bad or "%s%s: ill-formed term: %s" % (cname, bits, e)
+                        except (ArityError, IndexError) as e:
+                            bad = bad or "%s%s: ill-formed term: %s: %s" % (cname, bits, type(e).__name__, e)
                             continue
                         except (KeyError, TypeError) as e:
                             raise AnalysisError("gate2zx branch %s outside the foldable vocabulary: %s" % (cname, e))
